@@ -319,7 +319,12 @@ class UnicodeSubset(MutableSet[CodePoint]):
         obj = self.__copy__()
         return obj.__isub__(other)
 
-    __rsub__ = __sub__
+    def __rsub__(self, other: object) -> 'UnicodeSubset':
+        if not isinstance(other, Iterable):
+            return NotImplemented
+        obj = self.__class__()
+        obj.update(cast(Union[str, Iterable[CodePoint]], other))
+        return obj.__isub__(self)
 
     def __iand__(self, other: object) -> 'UnicodeSubset':
         if not isinstance(other, Iterable):
